@@ -260,11 +260,27 @@ def scheme_threshold(rng):
     return scale(s, unit)
 
 
+def scheme_sparse_unranked(rng):
+    """S18: each of the five penalties that involve an unranked element (B[3], B[4], B[5], T[3] = T[4], T[5]) is zero or not
+    independently of the others (B[3] <= B[4] kept): shortcuts guarded by 'these penalties are zero' meet every pattern"""
+    b = rng.choice([1.0, 1.0, 2.0])
+    t = rng.choice([0.5, 1.0, 1.0, 0.25]) * b
+    t0 = rng.choice([t, t, 0.5 * b, b])
+    val = lambda: rng.choice([0.5, 1.0, 1.0, 2.0]) * b
+    b3 = val() if rng.random() < 0.35 else 0.0
+    b4 = max(b3, val()) if (b3 > 0 or rng.random() < 0.5) else 0.0
+    b5 = val() if rng.random() < 0.5 else 0.0
+    t34 = val() if rng.random() < 0.4 else 0.0
+    t5 = val() if rng.random() < 0.5 else 0.0
+    return [[0.0, b, t, b3, b4, b5], [t0, t0, 0.0, t34, t34, t5]]
+
+
 SCHEME_CLASSES = {
     "S1": scheme_preset, "S2": scheme_preset_multiple, "S3": scheme_random, "S4": scheme_perturbed,
     "S5": scheme_lookalike, "S6": scheme_degenerate, "S7": scheme_decimal, "S8": scheme_threshold,
     "S9": scheme_free_ties, "S10": scheme_near_tie, "S11": scheme_ratio_band, "S12": scheme_extreme_ratio,
     "S13": scheme_big_t5, "S14": scheme_magnitudes, "S15": scheme_unranked_pairs, "S16": scheme_big_ratio, "S17": scheme_small_unranked,
+    "S18": scheme_sparse_unranked,
 }
 
 
